@@ -12,9 +12,9 @@ STUBS = CP.STUBS
 ASSUMPTIONS = CP.ASSUMPTIONS + ["summary percentages: exact rationals (float rounding outside), only when the path weight > 0"]
 BUDGET_S = {"quick": 540, "thorough": 3300}
 BOUNDS = {
-    "quick": "every successful analysis of 9 structures (0..2 launch/kernel pairs incl. communication kernels, stream "
-             "synchronisation, nested operators, CUDA event wait, two operators) over the whole-trace window and of 3 structures over the ProfilerStep window",
-    "thorough": "all 10 structures, both windows, zero-weight launch edges on/off",
+    "quick": "every successful analysis of 11 structures (0..2 launch/kernel pairs incl. communication kernels, stream "
+             "synchronisation, nested operators, a user annotation between an operator and its calls, CUDA event wait, two operators) over the whole-trace window and of 3 structures over the ProfilerStep window",
+    "thorough": "all 20 structures, both windows, zero-weight launch edges on/off",
 }
 EXPLANATION = ("Real CPGraph.get_critical_path_breakdown, summary, bound_by, _attribute_edge (through the real graph "
                "construction and real dag_longest_path). Obligations: one row per critical edge; durations add up to the "
@@ -33,7 +33,7 @@ def skeletons(tier):
         out.append({"id": f"{n}-{anno or 'all'}-z{int(z)}", "struct": n,
                     "params": {"anno": anno, "inst": 0 if anno else None, "step": step, "zero": z}})
     if tier == "quick":
-        for n in ("I", "A", "B", "C", "D", "E", "Q", "T", "K"):
+        for n in ("I", "A", "B", "C", "D", "E", "Q", "T", "K", "X", "Z"):
             add(n, "", False)
         for n in ("A", "B", "E"):
             add(n, "ProfilerStep", True)
